@@ -772,14 +772,22 @@ FAMILIES = {
 }
 
 
+def _busorder(s, k):
+    """the iteration order of EventBus.all_instances (which bus's queue an inline drain visits first) is part of the scenario"""
+    if len(s.get('buses', [])) > 1 and 'busorder' not in s:
+        s['busorder'] = 'rev' if k % 2 else 'fwd'
+    return s
+
+
 def generate(name, seed=0, count=None, stride=1):
     kind, fn = FAMILIES[name]
     if kind == 'sys':
         s = fn()
+        s = [_busorder(x, i + seed) for i, x in enumerate(s)]
         if stride > 1:
             s = s[seed % stride::stride]
         if count is not None and len(s) > count:
             step = len(s) / float(count)
             s = [s[int(i * step)] for i in range(count)]
         return s
-    return [fn(seed * 1000003 + i) for i in range(count or 100)]
+    return [_busorder(fn(seed * 1000003 + i), (seed * 1000003 + i) // 3) for i in range(count or 100)]
